@@ -306,6 +306,29 @@ class NamedTuple(tuple):
         raise Unsupported("namedtuple method %s" % attr)
 
 
+class MatchVal:
+    """A match object of the re module on a concrete subject."""
+
+    def __init__(self, m):
+        self.m = m
+
+    def __deepcopy__(self, memo):
+        return self
+
+    def ai_call(self, interp, attr, pos, kw, node):
+        if attr in ("group", "groups", "groupdict", "start", "end", "span", "expand"):
+            try:
+                return getattr(self.m, attr)(*pos)
+            except (IndexError, TypeError) as e:
+                raise RaiseEx(type(e).__name__, str(e), node)
+        raise Unsupported("match method %s" % attr)
+
+    def ai_getattr(self, interp, attr):
+        if attr in ("string", "pos", "endpos", "lastindex", "lastgroup"):
+            return getattr(self.m, attr)
+        return NotImplemented
+
+
 class GenList(list):
     """The items a generator expression will produce (evaluated eagerly): a list to every consumer, and next() takes
     items off its front."""
@@ -891,6 +914,9 @@ class Interp:
                 self.trace.events.append(("setitem", base, key, v, target))
             elif isinstance(base, Opaque) and base.attrs and self._class_method(base.kind, "__setitem__") is not None:
                 self.call_func(self._class_method(base.kind, "__setitem__"), [key, v], {}, self_obj=base, node=target)
+            elif self._dictlike(base) is not None and _concrete_key(key):
+                self._dictlike(base)[key] = v
+                self.trace.events.append(("setitem", base, key, v, target))
             elif isinstance(base, (Opaque, Sym)):
                 self.trace.events.append(("setitem", base, key, v, target))
             else:
@@ -1322,6 +1348,14 @@ class Interp:
             raise RaiseEx("TypeError", "not all arguments converted during string formatting", None)
         return AStr(out).simplify()
 
+    def to_py_str(self, v):
+        v = self.to_str(v)
+        if isinstance(v, AStr):
+            v = v.simplify()
+        if not isinstance(v, str):
+            raise Unsupported("replacement text is not concrete: %r" % (v,))
+        return v
+
     def to_str(self, v):
         if isinstance(v, (str, AStr, Sym)):
             return as_astr(v)
@@ -1428,6 +1462,11 @@ class Interp:
                     table = {ast.Eq: table[ast.Eq], ast.NotEq: None, ast.Gt: False, ast.GtE: None, ast.Lt: True if y < 0 else None, ast.LtE: True}
                 if y < 0:
                     table[ast.Eq], table[ast.NotEq] = False, True
+                if y == 0:
+                    # holes stand for at least one character: the position is 0 exactly at the very start of the text
+                    zero = (x.part == 0 and x.off == 0)
+                    table = {ast.Eq: zero, ast.NotEq: not zero, ast.Gt: not zero, ast.GtE: True, ast.Lt: False, ast.LtE: zero} if not flip else \
+                        {ast.Eq: zero, ast.NotEq: not zero, ast.Lt: not zero, ast.LtE: True, ast.Gt: False, ast.GtE: zero}
                 r_ = table.get(type(op))
                 if r_ is not None and r_ is not False or (r_ is False):
                     if r_ is not None:
@@ -1587,6 +1626,15 @@ class Interp:
                 return base[lo:hi]
             if isinstance(base, AStr) and (isinstance(lo, PosVal) or isinstance(hi, PosVal)) and all(x is None or x == 0 or isinstance(x, PosVal) for x in (lo, hi)):
                 parts = list(base.parts)
+                if isinstance(lo, PosVal) and isinstance(hi, PosVal) and lo.owner == hi.owner == base.render() and lo.part == hi.part and isinstance(parts[lo.part], str) \
+                        and lo.off >= len(parts[lo.part]) and hi.off == lo.off + 1:
+                    # one character of look-ahead past the literal part the position was found in
+                    k_ = lo.off - len(parts[lo.part])
+                    if lo.part + 1 >= len(parts):
+                        return ""
+                    nxt = parts[lo.part + 1]
+                    if k_ == 0:
+                        return nxt[0] if isinstance(nxt, str) else Sym("%s[0]" % getattr(nxt, "name", "rep"), "char", True)
                 for x in (lo, hi):
                     if isinstance(x, PosVal) and (x.owner != base.render() or not (0 <= x.off <= len(parts[x.part]))):
                         raise Unsupported("slice position outside the literal text it was found in")
@@ -1598,6 +1646,10 @@ class Interp:
                     tail = parts[lo.part][lo.off:] if lo.part < len(parts) else ""
                     parts = [tail] + parts[lo.part + 1:]
                 return AStr(parts).simplify()
+            if isinstance(base, AStr) and base.parts and isinstance(base.parts[0], str) and all(isinstance(x, int) and not isinstance(x, bool) and 0 <= x <= len(base.parts[0]) for x in (lo, hi)):
+                return base.parts[0][lo:hi]        # both bounds inside the leading literal text
+            if isinstance(base, AStr) and base.parts and isinstance(base.parts[0], str) and isinstance(lo, int) and not isinstance(lo, bool) and 0 <= lo <= len(base.parts[0]) and hi is None:
+                return AStr([base.parts[0][lo:]] + list(base.parts[1:])).simplify()
             if isinstance(base, AStr) and lo in (None, 0) and isinstance(hi, int) and not isinstance(hi, bool) and hi > 0 and base.parts:
                 # a short prefix: inside the first literal part, or the first character of a leading hole
                 first = base.parts[0]
@@ -1641,9 +1693,39 @@ class Interp:
                 return base[key]
             if isinstance(base, (Sym, Opaque)):
                 return Sym("%s[%s:%s]" % (base.name, key.start, key.stop), "any", None)
+        if isinstance(base, AStr) and isinstance(key, PosVal):
+            if key.owner != base.render():
+                raise Unsupported("index by a position found in another string")
+            part, off = key.part, key.off
+            parts_ = base.parts
+            while part < len(parts_) and isinstance(parts_[part], str) and off >= len(parts_[part]):
+                off -= len(parts_[part])
+                part += 1
+                if part < len(parts_) and not isinstance(parts_[part], str):
+                    if off == 0:
+                        return Sym("%s[0]" % getattr(parts_[part], "name", "rep"), "char", True)
+                    raise Unsupported("index into a hole")
+            if part >= len(parts_):
+                raise RaiseEx("IndexError", "string index out of range", node)
+            if off < 0:
+                if part == 0:
+                    raise Unsupported("negative string position")
+                prev = parts_[part - 1]
+                if isinstance(prev, str):
+                    if -off <= len(prev):
+                        return prev[off]
+                    raise Unsupported("index before a literal part")
+                if off == -1:
+                    return Sym("%s[-1]" % getattr(prev, "name", "rep"), "char", True)
+                raise Unsupported("index into a hole")
+            return parts_[part][off]
         if isinstance(base, AStr) and isinstance(key, int):
             if not base.parts:
                 raise RaiseEx("IndexError", "string index out of range", node)
+            if key >= 0 and isinstance(base.parts[0], str) and key < len(base.parts[0]):
+                return base.parts[0][key]          # inside the leading literal text: exact
+            if key >= 0 and isinstance(base.parts[0], str) and key == len(base.parts[0]) and len(base.parts) > 1:
+                return Sym("%s[0]" % getattr(base.parts[1], "name", "rep"), "char", True)
             edge = base.parts[0] if key == 0 else base.parts[-1] if key == -1 else None
             if isinstance(edge, str):
                 return edge[key]
@@ -1678,6 +1760,15 @@ class Interp:
             m_ = self.proj.method(c_, "__getitem__") if c_ is not None else None
             if m_ is not None and m_.qual in self.summaries:
                 return self.summaries[m_.qual](self, [key], {}, node)
+        store_ = self._dictlike(base)
+        if store_ is not None and _concrete_key(key):
+            # an instance of a package class derived from dict (parser.Quoter): its items, __missing__ for absent keys
+            if key in store_:
+                return store_[key]
+            mm_ = self._class_method(base.kind, "__missing__")
+            if mm_ is not None:
+                return self.call_func(mm_, [key], {}, self_obj=base, node=node)
+            raise RaiseEx("KeyError", repr(key), node)
         if isinstance(base, Opaque) and base.attrs:
             # an object of a package class that defines __getitem__: dispatch to it
             m_ = self._class_method(base.kind, "__getitem__")
@@ -1958,6 +2049,21 @@ class Interp:
             return HostIter(gen(), "iter(%s)" % v.name)
         return r_
 
+    def _dictlike(self, v):
+        """The items of an instance of a package class derived from dict / defaultdict / OrderedDict (kept on the object)."""
+        if not (isinstance(v, Opaque) and v.attrs and v.kind not in ("obj", "iter", "list", "dict", "set")):
+            return None
+        c = self._class_of_kind(v.kind)
+        if c is None:
+            return None
+        names = set()
+        for k in self.proj.mro(c):
+            for b in k.node.bases:
+                names.add(norm(b).split(".")[-1])
+        if not names & {"dict", "defaultdict", "OrderedDict"}:
+            return None
+        return v.attrs.setdefault("__items__", {})
+
     def _class_of_kind(self, kind):
         cs = [c for q, c in self.proj.classes.items() if q.split(".")[-1] == kind]
         return cs[0] if len(cs) == 1 else None
@@ -1981,6 +2087,8 @@ class Interp:
                 it_ = self.eval(g_.iter, e_)
                 if isinstance(it_, dict):
                     it_ = list(it_.keys())
+                if isinstance(it_, str):
+                    it_ = list(it_)
                 if not isinstance(it_, (list, tuple, StreamVal, HostIter)) or any(isinstance(x, Star) for x in it_ if isinstance(it_, (list, tuple))):
                     raise Unsupported("nested comprehension over %r" % (it_,))
                 for x in it_:
@@ -1994,6 +2102,10 @@ class Interp:
         it = self.eval(g.iter, env)
         if isinstance(it, (StreamVal, HostIter)):
             it = list(it)
+        if isinstance(it, str):
+            it = list(it)          # the characters of a concrete string
+        if self._object_iter(it, node) is not None:
+            it = list(self._object_iter(it, node, run=True))
         if isinstance(it, (list, tuple, dict)):
             out = []
             for x in (list(it) if not isinstance(it, dict) else list(it.keys())):
@@ -2824,11 +2936,29 @@ class Interp:
                 return dict(base)
             raise Unsupported("dict method %s" % attr)
         if isinstance(base, RegexVal):
+            if pos and isinstance(pos[0], AStr):
+                pos = [pos[0].simplify()] + list(pos[1:])
+            if attr in ("finditer", "findall", "split", "sub", "subn") and pos and all(isinstance(x, str) for x in pos[(1 if attr.startswith("sub") else 0):(2 if attr.startswith("sub") else 1)]):
+                import re as _re
+                rx = _re.compile(base.pattern)
+                if attr == "finditer":
+                    return GenList([MatchVal(m_) for m_ in rx.finditer(pos[0])])
+                if attr == "findall":
+                    return rx.findall(pos[0])
+                if attr == "split":
+                    return rx.split(pos[0], *[x for x in pos[1:2] if isinstance(x, int)])
+                repl = pos[0]
+                if isinstance(repl, str):
+                    out_ = rx.subn(repl, pos[1], *[x for x in pos[2:3] if isinstance(x, int)])
+                else:
+                    out_ = rx.subn(lambda m_: self.to_py_str(self.call(repl, [MatchVal(m_)], {}, node, env)), pos[1])
+                return out_[0] if attr == "sub" else out_
             if attr in ("match", "search", "fullmatch") and pos:
                 import re as _re
                 subj = pos[0]
                 if isinstance(subj, str):
-                    return getattr(_re.compile(base.pattern), attr)(subj) is not None
+                    m_ = getattr(_re.compile(base.pattern), attr)(subj)
+                    return MatchVal(m_) if m_ is not None else None
                 if isinstance(subj, AStr):
                     # holes stand for at least one non-structural character: decided when a word-like and a
                     # non-word representative agree, otherwise the outcome depends on the value's content (fork)
